@@ -247,6 +247,12 @@ func genCase(t *rapid.T) Case {
 	m := newModel()
 	touched := []string{}
 	nops := rapid.IntRange(1, 60).Draw(t, "nops")
+	// one case in four has many faces (an entry with sixteen next hops and more may be kept differently
+	// from a small one: seeded C05-r10-1 switched to a sorted list searched by bisection at sixteen)
+	maxFace := 5
+	if rapid.IntRange(0, 3).Draw(t, "manyFaces") == 0 {
+		maxFace = 24
+	}
 	kinds := []string{"ins", "ins", "ins", "rm", "rm", "clr", "set", "set", "unset", "repl"}
 	if rapid.IntRange(0, 9).Draw(t, "longHistory") == 0 {
 		kinds = append(kinds, "flap") // one case in ten: about one operation in eleven repeats itself up to 2100 times
@@ -314,8 +320,8 @@ func genCase(t *rapid.T) Case {
 			op = Op{Kind: "repl"}
 			for k := rapid.IntRange(1, 4).Draw(t, "batch"); k > 0; k-- {
 				r := Repl{Name: pick("rn")}
-				for j := rapid.IntRange(0, 2).Draw(t, "rhops"); j > 0; j-- {
-					f := uint64(rapid.IntRange(1, 5).Draw(t, "rface"))
+				for j := rapid.IntRange(0, 2+maxFace/6*5).Draw(t, "rhops"); j > 0; j-- {
+					f := uint64(rapid.IntRange(1, maxFace).Draw(t, "rface"))
 					dup := false
 					for _, h := range r.Hops {
 						dup = dup || h[0] == f
@@ -328,13 +334,13 @@ func genCase(t *rapid.T) Case {
 				touched = append(touched, r.Name)
 			}
 		case "flap":
-			op = Op{Kind: "flap", Name: pick("n"), Face: uint64(rapid.IntRange(1, 5).Draw(t, "face")), Cost: 3,
+			op = Op{Kind: "flap", Name: pick("n"), Face: uint64(rapid.IntRange(1, maxFace).Draw(t, "face")), Cost: 3,
 				Rep: rapid.SampledFrom([]int{3, 100, 1023, 1024, 1025, 2100}).Draw(t, "flapRep")}
 		case "ins":
-			op = Op{Kind: "ins", Name: pick("n"), Face: uint64(rapid.IntRange(1, 5).Draw(t, "face")),
+			op = Op{Kind: "ins", Name: pick("n"), Face: uint64(rapid.IntRange(1, maxFace).Draw(t, "face")),
 				Cost: rapid.SampledFrom([]uint64{0, 1, 1, 2, 10, 1 << 40}).Draw(t, "cost")}
 		case "rm":
-			op = Op{Kind: "rm", Name: pick("n"), Face: uint64(rapid.IntRange(1, 5).Draw(t, "face"))}
+			op = Op{Kind: "rm", Name: pick("n"), Face: uint64(rapid.IntRange(1, maxFace).Draw(t, "face"))}
 			// prefer a face that exists there
 			if h := m.hops[op.Name]; len(h) > 0 && rapid.Bool().Draw(t, "rmexisting") {
 				fs := make([]uint64, 0, len(h))
